@@ -284,32 +284,23 @@ m("c18-custom-section-static", "C18", H3INDEX,
   "isPentagon: one-entry cache in static variables placed in a custom-named writable section", "I1-static-write")
 
 m("c18-const-input-scribble", "C18", POLYFILL,
-  """    IterCellsPolygon iter = iterInitPolygon(polygon, res, flags);
-    int64_t i = 0;
-    for (; iter.cell; iterStepPolygon(&iter)) {
-        if (i >= size) {
-            iterDestroyPolygon(&iter);
-            return E_MEMORY_BOUNDS;
-        }
-        out[i++] = iter.cell;
+  """        out[i++] = iter.cell;
     }
     return iter.error;""",
-  """    // "normalise" the first vertex in place while we work, restore afterwards
-    LatLng *v0 = polygon->geoloop.numVerts > 0 ? (LatLng *)polygon->geoloop.verts : NULL;
-    double savedLat = v0 ? v0->lat : 0;
-    if (v0) v0->lat = savedLat * 0.5;
-    IterCellsPolygon iter = iterInitPolygon(polygon, res, flags);
-    if (v0) v0->lat = savedLat;
-    int64_t i = 0;
-    for (; iter.cell; iterStepPolygon(&iter)) {
-        if (i >= size) {
-            iterDestroyPolygon(&iter);
-            return E_MEMORY_BOUNDS;
-        }
-        out[i++] = iter.cell;
+  """        out[i++] = iter.cell;
     }
-    return iter.error;""",
-  "polygonToCellsExperimental: caller's const polygon modified temporarily and restored (visible only to a concurrent reader of the same polygon)", None)
+    H3Error iterErr = iter.error;
+    if (polygon->geoloop.numVerts > 0 && res >= 0 && res <= MAX_H3_RES) {
+        // scratch use of the caller's (const) first vertex, restored bit for bit
+        LatLng *v0 = (LatLng *)polygon->geoloop.verts;
+        double savedLat = v0->lat;
+        v0->lat = savedLat * 0.5;
+        H3Index probe;
+        H3_EXPORT(latLngToCell)(v0, res, &probe);
+        v0->lat = savedLat;
+    }
+    return iterErr;""",
+  "polygonToCellsExperimental: caller's const polygon modified for a few dozen instructions at the END of the call and restored (visible only to a concurrent reader of the same polygon inside that window)", None)
 
 # ------------------------------------------------------------------ C16 ----
 m("c16-skip-last-polygon", "C16", LINKED,
